@@ -26,7 +26,7 @@ ASSUMPTIONS = ["colliding keys are resolved with merge_strategy='create_unique' 
                "explicit ids of the form <base>_<n> are not generated"]
 
 SPECS = [None, "ID", "Name", ["ID", "Name"], ["Name", "ID"], {"gene": "ID", "exon": ["Name", "ID"]}, {"mRNA": ["ID"], "CDS": "Name"},
-         {"callable": "none"}, {"callable": "auto_seqid"}, {"callable": "auto_const", "base": "k"}, {"callable": "name_or_none"},
+         {"callable": "none"}, {"callable": "auto_seqid"}, {"callable": "auto_const", "base": "k"}, {"callable": "auto_colon"}, {"callable": "auto_const", "base": "x:y:z"}, {"callable": "name_or_none"},
          {"callable": "name_or_auto", "base": "z"}, {"callable": "empty"}, ":seqid:", ":source:", ":featuretype:", [":seqid:"],
          [{"callable": "name_or_none"}, "ID"], [{"callable": "none"}, "Name", "ID"], {"gene": ":seqid:", "exon": "ID"}]
 
@@ -57,7 +57,7 @@ def batch(rng, n, multi_ok):
         elif r < 0.14 and multi_ok:
             for kv in f["attrs"]:
                 if kv[0] == "ID":
-                    kv[1] = [kv[1][0], "q"]
+                    kv[1] = [kv[1][0], rng.choice(["q", kv[1][0]])]  # several values, possibly all equal
         out.append(f)
     return out
 
@@ -71,6 +71,8 @@ def gen(rng, tier):
         for _ in range(rng.choice([0, 1, 1, 2, 3])):
             steps.append({"op": rng.choice(["reopen", "restart", "gc", "none"])})
             steps.append({"op": "update", "feats": batch(rng, rng.randint(1, 4), multi), "form": rng.choice(["path", "list", "gen", "iter1"])})
+            if rng.random() < 0.4:
+                steps.append({"op": "delete", "pick": rng.random(), "form": rng.choice(["str", "feature", "features", "strs", "gen"])})
     else:
         feats = []
         while not feats:
@@ -118,6 +120,25 @@ def run(case):
                 node.close()
                 node = w.node()
                 call(node, {"op": "open", "h": "h", "db": "a.db"})
+                continue
+            if k == "delete" and alive and model.order:
+                # look the key up, delete it (in the given argument form), look it up again
+                key = model.order[int(st["pick"] * len(model.order)) % len(model.order)]
+                g = call(node, {"op": "get", "h": "h", "key": key})
+                if not g["ok"]:
+                    V.append(viol("C04.lookup", "db[%r] raised %s before the delete" % (key, g["exc"]), kind="lookup_failed"))
+                    break
+                dl = call(node, {"op": "delete", "h": "h", "ids": [key], "form": st["form"], "kw": {"make_backup": False}})
+                if not dl["ok"]:
+                    V.append(viol("C04.lookup", "delete(%r as %s) raised %s: %s" % (key, st["form"], dl["exc"], dl["msg"]), kind="delete_failed"))
+                    break
+                model.delete([key])
+                g = call(node, {"op": "get", "h": "h", "key": key})
+                if g["ok"] or g["exc"] != "FeatureNotFoundError":
+                    V.append(viol("C04.lookup", "db[%r] after delete(%s form) gave %s instead of FeatureNotFoundError" % (
+                        key, st["form"], "the deleted feature" if g["ok"] else g["exc"]), kind="stale_lookup_after_delete", form=st["form"]))
+                    break
+                probes["lookup_delete_lookup"] = 1
                 continue
             if k not in ("create", "update"):
                 continue
